@@ -1,5 +1,399 @@
 /-
-C09 — property theorems (stub: not built yet).
+C09 — Replace and Split are the fold of the match sequence.
+
+Property theorems about the model `RegexVerif.Model.Replace` of replace.go / split.go /
+syntax/replacerdata.go / the replacement scanner of syntax/parser.go.  The model is tied to the Go
+code by correspondence leg P (Lean scanner = `syntax.NewReplacerData`; Lean drivers on Go's match
+sequence = the strings `Replace`, `ReplaceFunc`, `Split` return), and the hypothesis "the match
+sequence is ordered, disjoint and in bounds" is evaluated by the Lean driver on every sequence Go
+delivers.
+
+In all statements `ms` is the sequence *as the engine delivers it*: ascending for a left-to-right
+pattern, descending for a right-to-left pattern; `none` / `Res.panic` stand for a Go run-time panic.
 -/
+import RegexVerif.Lemmas.Replace
+import RegexVerif.Generated.Replace
+
 namespace RegexVerif.Props.C09
+open RegexVerif RegexVerif.Replace RegexVerif.Lemmas.Replace
+
+/-- the processed matches in left-to-right text order -/
+def inTextOrder (rtl : Bool) (ms : List Match) : List Match := if rtl then ms.reverse else ms
+
+/-! ### a concrete instance used by the non-vacuity examples
+
+text `"abcab a"`, pattern `(a)(b)?`: matches `ab`@0, `ab`@3, `a`@6 (group 2 unset in the last) -/
+
+def exText : List Nat := [97, 98, 99, 97, 98, 32, 97]
+def exMs : List Match :=
+  [⟨0, 2, [some (0, 1), some (1, 1)]⟩, ⟨3, 2, [some (3, 1), some (4, 1)]⟩, ⟨6, 1, [some (6, 1), none]⟩]
+/-- `[$2|$1]` -/
+def exPieces : List Piece := [.lit [91], .group 2, .lit [124], .group 1, .lit [93]]
+
+example : validLTR exText exMs = true := by decide
+example : validRTL exText exMs.reverse = true := by decide
+example : valid true exText exMs.reverse = true ∧ valid false exText exMs = true := by decide
+
+/-! ### Replace -/
+
+/-- **Left-to-right driver = fold.**  For every text, every ascending, disjoint, in-bounds match
+    sequence, every rule list and every non-zero count, the loop of `replaceRunnerLTR` does not panic and
+    returns the input with each of the first `count` matches (all, for a negative count) replaced in
+    place by the expansion of the rules, all other text kept. -/
+theorem replaceLTR_eq_fold (text : List Nat) (ms : List Match) (pieces : List Piece) (count : Int)
+    (hc : count ≠ 0) (hv : validLTR text ms = true) :
+    replaceLTR text ms pieces count = some (spec text (takeCount count ms) (expand pieces text)) := by
+  unfold replaceLTR spec
+  rw [loopLTR_spec text pieces ms 0 [] count hc hv]
+  simp
+
+example : replaceLTR exText exMs exPieces 2
+    = some ([91, 98, 124, 97, 93] ++ [99] ++ [91, 98, 124, 97, 93] ++ [32, 97]) := by decide
+
+/-- **Right-to-left driver = the same fold.**  The matches arrive last-to-first; the list-and-reverse
+    construction of `replaceRunnerRTL` / `replacementImplRTL` produces exactly the string obtained by
+    substituting the processed matches in place, read in text order (so a multi-part replacement
+    comes out in rule order and kept text is not reordered). -/
+theorem replaceRTL_eq_fold (text : List Nat) (ms : List Match) (pieces : List Piece) (count : Int)
+    (hc : count ≠ 0) (hv : validRTL text ms = true) :
+    replaceRTL text ms pieces count
+      = some (spec text (takeCount count ms).reverse (expand pieces text)) := by
+  unfold replaceRTL spec
+  rw [loopRTL_spec text pieces ms text.length [] count hc hv (Nat.le_refl _)]
+  simp
+
+example : replaceRTL exText exMs.reverse exPieces 2
+    = some ([97, 98, 99] ++ [91, 98, 124, 97, 93] ++ [32] ++ [91, 124, 97, 93]) := by decide
+
+/-- **`Replace` = fold, both directions, every count ≥ -1** (count 0: nothing is replaced; no match:
+    the input). -/
+theorem replace_eq_fold (text : List Nat) (ms : List Match) (pieces : List Piece) (count : Int) (rtl : Bool)
+    (hc : -1 ≤ count) (hv : valid rtl text ms = true) :
+    replace text ms pieces count rtl
+      = .ok (spec text (inTextOrder rtl (takeCount count ms)) (expand pieces text)) := by
+  unfold replace
+  have h1 : ¬ count < -1 := by omega
+  simp only [h1, if_false]
+  by_cases h0 : count = 0
+  · subst h0
+    simp [takeCount, inTextOrder, spec, specBetween, slice_zero_length]
+  · simp only [h0, if_false]
+    cases ms with
+    | nil => simp [takeCount_nil, inTextOrder, spec, specBetween, slice_zero_length]
+    | cons m rest =>
+      cases rtl with
+      | true =>
+        have hv' : validRTL text (m :: rest) = true := by simpa [valid] using hv
+        simp [inTextOrder, replaceRTL_eq_fold text (m :: rest) pieces count h0 hv', Res.ofOption]
+      | false =>
+        have hv' : validLTR text (m :: rest) = true := by simpa [valid] using hv
+        simp [inTextOrder, replaceLTR_eq_fold text (m :: rest) pieces count h0 hv', Res.ofOption]
+
+/-- **`ReplaceFunc` = fold** with the evaluator's strings, both directions. -/
+theorem replaceFunc_eq_fold (text : List Nat) (ms : List Match) (ev : Match → List Nat) (count : Int) (rtl : Bool)
+    (hc : -1 ≤ count) (hv : valid rtl text ms = true) :
+    replaceFunc text ms ev count rtl = .ok (spec text (inTextOrder rtl (takeCount count ms)) ev) := by
+  unfold replaceFunc
+  have h1 : ¬ count < -1 := by omega
+  simp only [h1, if_false]
+  by_cases h0 : count = 0
+  · subst h0
+    simp [takeCount, inTextOrder, spec, specBetween, slice_zero_length]
+  · simp only [h0, if_false]
+    cases ms with
+    | nil => simp [takeCount_nil, inTextOrder, spec, specBetween, slice_zero_length]
+    | cons m rest =>
+      cases rtl with
+      | true =>
+        have hv' : validDesc text.length (m :: rest) = true := by simpa [valid, validRTL] using hv
+        simp [inTextOrder, spec, loopFuncRTL_spec text ev (m :: rest) text.length [] count h0 hv' (Nat.le_refl _), Res.ofOption]
+      | false =>
+        have hv' : validFrom text.length 0 (m :: rest) = true := by simpa [valid, validLTR] using hv
+        simp [inTextOrder, spec, loopFuncLTR_spec text ev (m :: rest) 0 [] count h0 hv', Res.ofOption]
+
+/-- **Evaluator path = rules path.**  `ReplaceFunc` with an evaluator that computes the expansion of
+    the rules returns the same string as `Replace` with those rules (for every count, also the
+    rejected ones; the right-to-left halves agree even without the validity hypothesis, the
+    left-to-right halves differ on invalid sequences only in *where* they would panic). -/
+theorem replaceFunc_eq (text : List Nat) (ms : List Match) (pieces : List Piece) (count : Int) (rtl : Bool)
+    (hv : valid rtl text ms = true) :
+    replaceFunc text ms (expand pieces text) count rtl = replace text ms pieces count rtl := by
+  by_cases hc : -1 ≤ count
+  · rw [replaceFunc_eq_fold text ms _ count rtl hc hv, replace_eq_fold text ms pieces count rtl hc hv]
+  · have : count < -1 := by omega
+    simp [replaceFunc, replace, this]
+
+example : replaceFunc exText exMs.reverse (expand exPieces exText) (-1) true
+    = replace exText exMs.reverse exPieces (-1) true := by decide
+
+/-- the scanner reads `$&` as "group slot 0" whenever group number 0 sits in slot 0 (true of every
+    compiled regex) -/
+theorem parse_dollar_amp (isWord : Nat → Bool) (env : Env) (h0 : slotOf env 0 = 0) :
+    parse isWord env [36, 38] = .ok [Piece.group 0] := by
+  simp [parse, newReplacerData, scanLoop, scanDollar, dollar, isDigit, buildData, h0,
+    ReplacerData.pieces, decodeRule]
+
+/-- **A replacement string without `$` is one literal**: it parses, for every regex, to the single
+    rule "append this text" (the empty string to no rule at all), so `Replace` substitutes it verbatim. -/
+theorem parse_plain (isWord : Nat → Bool) (env : Env) (rep : List Nat) (h : dollar ∉ rep) :
+    parse isWord env rep = .ok (if rep = [] then [] else [Piece.lit rep]) := by
+  simp only [parse, newReplacerData, scanLoop_plain isWord env rep h, buildData_chars]
+  by_cases hr : rep = []
+  · simp [hr, buildData, ReplacerData.pieces]
+  · simp [hr, buildData, ReplacerData.pieces, decodeRule]
+
+/-! the scanner on the ambiguous forms (regex with groups 0, 1 and a group `n` = number 2 in slot 2):
+    `$12` is a literal without ECMAScript and "group 1, then `2`" with it; `${1}0`; `${n}`; `${x}`, `$`, `$$` -/
+def exWord (c : Nat) : Bool := decide (97 ≤ c ∧ c ≤ 122)
+def exEnv (ecma : Bool) : Env := ⟨none, 3, [([110], 2)], ecma⟩
+
+example : parse exWord (exEnv false) [36, 49, 50] = .ok [.lit [36, 49, 50]] := by rfl
+example : parse exWord (exEnv true) [36, 49, 50] = .ok [.group 1, .lit [50]] := by rfl
+example : parse exWord (exEnv false) [36, 123, 49, 125, 48] = .ok [.group 1, .lit [48]] := by rfl
+example : parse exWord (exEnv false) [36, 123, 110, 125, 36, 43] = .ok [.group 2, .lastGroup] := by rfl
+example : parse exWord (exEnv false) [36, 123, 120, 125, 36, 36, 36] = .ok [.lit [36, 123, 120, 125, 36, 36]] := by rfl
+example : parse exWord (exEnv false) [36, 57, 57, 57, 57, 57, 57, 57, 57, 57, 57, 57] = .error .overflow := by rfl
+
+/-- **Replacing with `$&` is the identity**: for every regex environment, every ordered, disjoint,
+    in-bounds match sequence in either direction and every count ≥ -1, `Replace(s, "$&")` is `s`. -/
+theorem replace_self_id (isWord : Nat → Bool) (env : Env) (h0 : slotOf env 0 = 0)
+    (text : List Nat) (ms : List Match) (count : Int) (rtl : Bool)
+    (hc : -1 ≤ count) (hv : valid rtl text ms = true) :
+    ∃ pieces, parse isWord env [36, 38] = .ok pieces ∧ replace text ms pieces count rtl = .ok text := by
+  refine ⟨[Piece.group 0], parse_dollar_amp isWord env h0, ?_⟩
+  rw [replace_eq_fold text ms _ count rtl hc hv]
+  have hf : expand [Piece.group 0] text = matchText text := funext (expand_self text)
+  rw [hf, spec]
+  have hval : validFrom text.length 0 (inTextOrder rtl (takeCount count ms)) = true := by
+    cases rtl with
+    | true =>
+      have hv' : validDesc text.length ms = true := by simpa [valid, validRTL] using hv
+      simpa [inTextOrder] using validDesc_reverse _ _ (takeCount_validDesc count ms _ hv')
+    | false =>
+      have hv' : validFrom text.length 0 ms = true := by simpa [valid, validLTR] using hv
+      simpa [inTextOrder] using takeCount_valid _ count ms 0 hv'
+  rw [specBetween_id text text.length _ 0 hval, slice_zero_length]
+
+example : slotOf ⟨some [(0, 0), (5, 1)], 2, [], false⟩ 0 = 0 ∧ slotOf ⟨none, 3, [], false⟩ 0 = 0 := by decide
+
+/-- **count = 0 returns the input** — for `Replace` and `ReplaceFunc`, whatever the matches, rules,
+    evaluator and direction. -/
+theorem count_zero_id (text : List Nat) (ms : List Match) (pieces : List Piece) (ev : Match → List Nat) (rtl : Bool) :
+    replace text ms pieces 0 rtl = .ok text ∧ replaceFunc text ms ev 0 rtl = .ok text := by
+  simp [replace, replaceFunc]
+
+/-- the fold written as "kept texts interleaved with substitutions": `spec` substitutes *in place* —
+    with `f = matched text` the same interleaving is the input itself -/
+theorem spec_in_place (text : List Nat) (ms : List Match) (f : Match → List Nat) (hv : validLTR text ms = true) :
+    spec text ms f = interleave (gaps text 0 ms) (ms.map f)
+      ∧ interleave (gaps text 0 ms) (ms.map (matchText text)) = text := by
+  refine ⟨spec_eq_interleave text f ms 0, ?_⟩
+  rw [← spec_eq_interleave text (matchText text) ms 0, specBetween_id text text.length ms 0 hv, slice_zero_length]
+
+/-! ### the integer rules of `ReplacerData` -/
+
+/-- what `NewReplacerData` stores for a piece: literals index the string table, group slot `s` is
+    `-5 - s`, the specials are `-4 … -1` -/
+def encodeRule (strings : List (List Nat)) : Piece → Int × List (List Nat)
+  | .lit s => (strings.length, strings ++ [s])
+  | .group slot => (-5 - (slot : Int), strings)
+  | .leftPortion => (-4, strings)
+  | .rightPortion => (-3, strings)
+  | .lastGroup => (-2, strings)
+  | .wholeString => (-1, strings)
+
+/-- **Rule encoding round trip**: `replacementImpl`'s decoding of the integer that `NewReplacerData`
+    writes for a piece is that piece (no group slot collides with a special or a string index). -/
+theorem decode_encode (strings : List (List Nat)) (p : Piece) :
+    decodeRule (encodeRule strings p).2 (encodeRule strings p).1 = p := by
+  cases p with
+  | lit s => simp [encodeRule, decodeRule]
+  | group slot =>
+    have h1 : ¬ (0 : Int) ≤ -5 - (slot : Int) := by omega
+    have h2 : -5 - (slot : Int) < -4 := by omega
+    have h3 : (-5 - (-5 - (slot : Int))).toNat = slot := by omega
+    simp only [encodeRule, decodeRule, if_neg h1, if_pos h2, h3]
+  | leftPortion => simp [encodeRule, decodeRule]
+  | rightPortion => simp [encodeRule, decodeRule]
+  | lastGroup => simp [encodeRule, decodeRule]
+  | wholeString => simp [encodeRule, decodeRule]
+
+/-! ### facts regenerated from the Go source on every run (`Generated.Replace`) -/
+
+/-- The two copies of the rule-encoding constants (replace.go and syntax/replacerdata.go) agree
+    with each other and with the numbers the model uses (`replaceSpecials = 4`, specials `-1 … -4`),
+    and the parser's decimal overflow bounds are the model's. -/
+theorem source_constants :
+    Generated.Replace.runConsts = [4, -1, -2, -3, -4] ∧ Generated.Replace.synConsts = Generated.Replace.runConsts
+      ∧ Generated.Replace.maxValueDiv10 = maxValueDiv10 ∧ Generated.Replace.maxValueMod10 = maxValueMod10 := by
+  decide
+
+/-- With the constants of the source, the rule `-replaceSpecials-1-k` written for the special `k`
+    decodes in `replacementImpl` to that special, and group slot 0 (`$&`) to a group lookup. -/
+theorem source_specials_decode :
+    Generated.Replace.runConsts.length = 5 ∧
+    (let c := fun i => Generated.Replace.runConsts.getD i 0
+     decodeRule [] (-(c 0) - 1 - c 1) = .leftPortion ∧ decodeRule [] (-(c 0) - 1 - c 2) = .rightPortion
+       ∧ decodeRule [] (-(c 0) - 1 - c 3) = .lastGroup ∧ decodeRule [] (-(c 0) - 1 - c 4) = .wholeString
+       ∧ decodeRule [] (-(c 0) - 1 - 0) = .group 0) := by
+  decide
+
+/-- The one-character substitutions in the `switch ch` of `scanDollar` are exactly the ones the model's
+    scanner implements: for each `(c, v)` of the source table, `$c…` scans to the reference `v`
+    consuming one rune, whatever the regex and whatever follows; and `$$` is a literal `$`. -/
+theorem source_dollar_table (isWord : Nat → Bool) (env : Env) (rest : List Nat) :
+    (∀ p ∈ Generated.Replace.dollarSpecials, scanDollar isWord env (p.1 :: rest) = .ok (.ref p.2, 1))
+      ∧ Generated.Replace.dollarDollar = true ∧ scanDollar isWord env (36 :: rest) = .ok (.ch 36, 1) := by
+  have ht : Generated.Replace.dollarSpecials = [(38, 0), (96, -1), (39, -2), (43, -3), (95, -4)] := by decide
+  rw [ht]
+  refine ⟨?_, by decide, by simp [scanDollar, isDigit, dollar]⟩
+  intro p hp
+  simp only [List.mem_cons, List.not_mem_nil, or_false] at hp
+  rcases hp with h | h | h | h | h <;> subst h <;> simp [scanDollar, isDigit]
+
+/-! ### the scanner -/
+
+/-- **Every reference the scanner produces is valid, and the integer rules denote the scanned
+    pieces.**  For well-formed group maps (`envOk`: group 0 exists, named groups' numbers are capture
+    slots — evaluated by the driver on every regex of leg P), if the scanner accepts the replacement
+    string with token list `toks`, then
+    * every reference token is either one of the four specials or a group number that
+      `isCaptureSlot` accepts — anything else after a `$` was literalised;
+    * `NewReplacerData`'s integer encoding followed by `replacementImpl`'s decoding loses nothing:
+      the parsed pieces are the tokens read off directly (`piecesOf`: adjacent literal runes merged into
+      one string, a group reference as the slot `caps[number]`, the specials as themselves) — no string
+      index or group slot is confused with another rule. -/
+theorem parse_denotes (isWord : Nat → Bool) (env : Env) (henv : envOk env = true) (rep : List Nat) (toks : List Tok)
+    (h : scanLoop isWord env rep 0 = .ok toks) :
+    (∀ t ∈ toks, RefOk env t) ∧ parse isWord env rep = .ok (piecesOf env toks []) := by
+  obtain ⟨hn, h0⟩ := envOk_names env henv
+  have hok := scanLoop_ok isWord env hn h0 rep 0 toks h
+  refine ⟨hok, ?_⟩
+  simp only [parse, newReplacerData, h]
+  rw [buildData_pieces env toks [] [] [] hok (by intro r hr; simp at hr)]
+  simp
+
+example : envOk (exEnv false) = true ∧ envOk ⟨some [(0, 0), (5, 1), (7, 2)], 3, [([48], 0), ([110], 7), ([53], 5)], false⟩ = true := by
+  decide
+
+/-! ### Split -/
+
+/-- number of matches `Split` processes at most, for a count outside {0, 1} -/
+def splitLimit (count : Int) : Nat := (if count = -1 then maxInt else count).toNat
+
+/-- group texts of one match in the order `Split` returns them: slot order left-to-right, reverse
+    slot order for a right-to-left pattern (the whole result list is built backwards and reversed) -/
+def capOrder (text : List Nat) (rtl : Bool) : Match → List (List Nat) :=
+  if rtl then capTextsRev text else capTexts text
+
+/-- **`Split` as the code behaves**, for every count ≥ -1 and both directions: count 0 gives no
+    pieces, count 1 the input; otherwise at most `count` matches are processed (all for -1) and the
+    result is: kept text, then the texts of the groups 1… of the match (unset groups as empty strings;
+    reverse slot order when right-to-left), kept text, … , final kept text — in text order. -/
+theorem split_eq_spec (text : List Nat) (ms : List Match) (count : Int) (rtl : Bool)
+    (hc : -1 ≤ count) (hv : valid rtl text ms = true) :
+    split text ms count rtl =
+      .ok (if count = 0 then [] else if count = 1 then [text]
+           else splitSpec text (capOrder text rtl) 0 (inTextOrder rtl (ms.take (splitLimit count))) text.length) := by
+  unfold split
+  have h1 : ¬ count < -1 := by omega
+  simp only [h1, if_false]
+  by_cases h0 : count = 0
+  · simp [h0]
+  simp only [h0, if_false]
+  by_cases h1' : count = 1
+  · simp [h1']
+  simp only [h1', if_false]
+  cases ms with
+  | nil => simp [inTextOrder, splitSpec, slice_zero_length]
+  | cons m rest =>
+    cases rtl with
+    | true =>
+      have hv' : validDesc text.length (m :: rest) = true := by simpa [valid, validRTL] using hv
+      simp [splitLoop_rtl text (m :: rest) text.length [] _ hv' (Nat.le_refl _), Res.ofOption, inTextOrder,
+        capOrder, splitLimit]
+    | false =>
+      have hv' : validFrom text.length 0 (m :: rest) = true := by simpa [valid, validLTR] using hv
+      simp [splitLoop_ltr text (m :: rest) 0 [] _ hv', Res.ofOption, inTextOrder, capOrder, splitLimit]
+
+example : split exText exMs (-1) false
+    = .ok [[], [97], [98], [99], [97], [98], [32], [97], [], []] := by decide
+example : split exText exMs.reverse 2 true
+    = .ok [[97, 98, 99], [98], [97], [32], [], [97], []] := by decide
+
+theorem processed_valid (text : List Nat) (ms : List Match) (k : Nat) (rtl : Bool) (hv : valid rtl text ms = true) :
+    validFrom text.length 0 (inTextOrder rtl (ms.take k)) = true := by
+  cases rtl with
+  | true =>
+    have hv' : validDesc text.length ms = true := by simpa [valid, validRTL] using hv
+    simpa [inTextOrder] using validDesc_reverse _ _ (validDesc_take ms _ k hv')
+  | false =>
+    have hv' : validFrom text.length 0 ms = true := by simpa [valid, validLTR] using hv
+    simpa [inTextOrder] using validFrom_take _ ms 0 k hv'
+
+/-- **Split pieces re-joined with the matched texts rebuild the input** (general form, with
+    captures): walking the result, after each kept text skip the `GroupCount()-1` group entries of
+    the match and put the matched text back — the concatenation is the input.  Holds for every count
+    except 0 (which returns no pieces) and both directions. -/
+theorem split_join (text : List Nat) (ms : List Match) (count : Int) (rtl : Bool)
+    (hc : -1 ≤ count) (h0 : count ≠ 0) (hv : valid rtl text ms = true) :
+    ∃ ps, split text ms count rtl = .ok ps ∧
+      rejoin text (fun m => m.groups.length)
+        (if count = 1 then [] else inTextOrder rtl (ms.take (splitLimit count))) ps = text := by
+  rw [split_eq_spec text ms count rtl hc hv]
+  simp only [h0, if_false]
+  by_cases h1 : count = 1
+  · simp [h1, rejoin]
+  · simp only [h1, if_false]
+    refine ⟨_, rfl, ?_⟩
+    rw [rejoin_splitSpec text (capOrder text rtl) _ text.length _ 0 (processed_valid text ms _ rtl hv),
+      slice_zero_length]
+    intro m _
+    cases rtl <;> simp [capOrder, capTextsRev, capTexts]
+
+/-- **Split, pattern without captures**: the result is exactly the kept texts, one more than the
+    processed matches, and interleaving them with the matched texts gives the input. -/
+theorem split_join_nocaptures (text : List Nat) (ms : List Match) (count : Int) (rtl : Bool)
+    (hc : -1 ≤ count) (h0 : count ≠ 0) (h1 : count ≠ 1) (hv : valid rtl text ms = true)
+    (hg : ∀ m ∈ ms, m.groups = []) :
+    ∃ ps, split text ms count rtl = .ok ps ∧
+      interleave ps ((inTextOrder rtl (ms.take (splitLimit count))).map (matchText text)) = text := by
+  rw [split_eq_spec text ms count rtl hc hv]
+  simp only [h0, h1, if_false]
+  refine ⟨_, rfl, ?_⟩
+  rw [interleave_splitSpec_nocap text (capOrder text rtl) text.length _ 0 (processed_valid text ms _ rtl hv),
+    slice_zero_length]
+  intro m hm
+  have hm' : m ∈ ms := by
+    cases rtl with
+    | true => exact List.mem_of_mem_take (by simpa [inTextOrder] using hm)
+    | false => exact List.mem_of_mem_take (by simpa [inTextOrder] using hm)
+  cases rtl <;> simp [capOrder, capTextsRev, capTexts, hg m hm']
+
+example : ∃ ps, split [97, 45, 98, 45, 99] [⟨3, 1, []⟩, ⟨1, 1, []⟩] (-1) true = .ok ps ∧ ps = [[97], [98], [99]] := by
+  exact ⟨_, by decide, rfl⟩
+
+/-- **Every slice `Split` takes is in bounds**: for an ordered, disjoint, in-bounds sequence in
+    either direction and any count, none of the slice expressions `txt[a:b]` of split.go panics. -/
+theorem split_inbounds (text : List Nat) (ms : List Match) (count : Int) (rtl : Bool)
+    (hv : valid rtl text ms = true) : split text ms count rtl ≠ .panic := by
+  by_cases hc : -1 ≤ count
+  · rw [split_eq_spec text ms count rtl hc hv]; simp
+  · have : count < -1 := by omega
+    simp [split, this]
+
+/-- the same for `Replace` and `ReplaceFunc`: no index or slice of the driver loops is out of range -/
+theorem replace_inbounds (text : List Nat) (ms : List Match) (pieces : List Piece) (ev : Match → List Nat)
+    (count : Int) (rtl : Bool) (hv : valid rtl text ms = true) :
+    replace text ms pieces count rtl ≠ .panic ∧ replaceFunc text ms ev count rtl ≠ .panic := by
+  by_cases hc : -1 ≤ count
+  · rw [replace_eq_fold text ms pieces count rtl hc hv, replaceFunc_eq_fold text ms ev count rtl hc hv]; simp
+  · have : count < -1 := by omega
+    simp [replace, replaceFunc, this]
+
+/-- without the hypothesis the claim is false: a right-to-left sequence handed over in ascending
+    order makes the model of `Split` panic (this is what split.go did before it learnt about
+    right-to-left patterns) -/
+example : split [97, 45, 98, 45, 99] [⟨1, 1, []⟩, ⟨3, 1, []⟩] (-1) true = .panic := by decide
+
 end RegexVerif.Props.C09
